@@ -37,7 +37,7 @@ def value(draw):
 
 
 @st.composite
-def build_attrs(draw, pattern, allow_omit_all=True, p_fix=3, p_hide=2, p_leave=3):
+def build_attrs(draw, pattern, allow_omit_all=True, p_fix=3, p_hide=2, p_leave=3, omit_all_weight=1):
     """Attribute list permitted by the documentation for a key with the given pattern."""
     entries = []
     for i, s in enumerate(pattern):
@@ -55,30 +55,34 @@ def build_attrs(draw, pattern, allow_omit_all=True, p_fix=3, p_hide=2, p_leave=3
                 entries.append((i, draw(value())))
             elif how == "hide":
                 entries.append((i, None))
-    omit_all = draw(st.integers(0, 4)) == 0 if allow_omit_all else False
+    omit_all = draw(st.integers(0, 4)) < omit_all_weight if allow_omit_all else False
     return entries, omit_all
 
 
 @st.composite
-def histories(draw, max_l=7, max_steps=8, ops=("keygen", "nd_keygen", "qualify", "nd_qualify", "adjust", "resample"), signatures=None):
+def histories(draw, max_l=7, max_steps=8, ops=("keygen", "nd_keygen", "qualify", "nd_qualify", "adjust", "resample"), signatures=None, force_last=None):
+    """force_last: tuple of ops; one extra final key-producing step is appended whose list hides slots often (explicitly or by omit-all)."""
     l = draw(st.integers(1, max_l))
     sigs = draw(st.booleans()) if signatures is None else signatures
     h = {"l": l, "sigs": sigs, "stream": draw(st.binary(min_size=0, max_size=48)), "seed": draw(st.integers(0, 2**32)), "steps": []}
     keys = []        # model entries: dict(pattern, ndq=(parent, entries, omit_all) or None)
     root = [FREE] * l
-    for _ in range(draw(st.integers(1, max_steps))):
-        feasible = [o for o in ops if o in ("keygen", "nd_keygen") or keys]
+    nsteps = draw(st.integers(1, max_steps))
+    for stepno in range(nsteps + (1 if force_last else 0)):
+        forced = bool(force_last) and stepno == nsteps
+        feasible = [o for o in (force_last if forced else ops) if o in ("keygen", "nd_keygen") or keys]
         if "adjust" in feasible and not any(k["ndq"] for k in keys):
             feasible.remove("adjust")
         op = draw(st.sampled_from(feasible))
         step = {"op": op, "stream": draw(st.binary(min_size=0, max_size=40)), "seed": draw(st.integers(0, 2**32))}
+        bias = dict(p_fix=2, p_hide=3, p_leave=3, omit_all_weight=2) if forced else {}
         if op in ("keygen", "nd_keygen"):
-            entries, oa = draw(build_attrs(root))
+            entries, oa = draw(build_attrs(root, **bias))
             step.update(attrs=entries, omit_all=oa)
             keys.append({"pattern": apply_attrs(root, entries, oa), "ndq": None})
         elif op in ("qualify", "nd_qualify"):
             p = draw(st.integers(0, len(keys) - 1))
-            entries, oa = draw(build_attrs(keys[p]["pattern"]))
+            entries, oa = draw(build_attrs(keys[p]["pattern"], **bias))
             step.update(parent=p, attrs=entries, omit_all=oa)
             keys.append({"pattern": apply_attrs(keys[p]["pattern"], entries, oa), "ndq": (p, entries, oa) if op == "nd_qualify" else None})
         elif op == "adjust":
